@@ -27,6 +27,10 @@ def run(chk):
     clones.rule_threshold_tests(chk, 'N3', floor=20)
     clones.rule_defuse(chk, 'D1', 'D2', ('cipher',), floor=50)
     clones.rule_tables(chk, 'N5', ('cipher',), floor=20)
+    from . import callctx as _cc
+    _Pc = cf.PROGRAM[0] or cf.Program()
+    _vt = set(_Pc.variant_tus())
+    _cc.rule_call_contexts(chk, _Pc, 'T10', lambda tu, fn, callee, cargs, atoms: tu in _vt, 1000)
     clones.rule_unreachable(chk, 'U1', ('cipher',), floor=20)
     from . import twins as _tw
     _tw.rule_copy_siblings(chk, cf.PROGRAM[0] or cf.Program(), 'X5', floor=100)
